@@ -1,0 +1,104 @@
+//go:build verif
+
+// Contracts for the govc deductive verifier (see /verif/DESIGN.md). Compiled only under the build
+// tag "verif"; adds no behaviour to the package.
+package wire
+
+import "github.com/arloliu/go-secs/v2/secs2"
+
+// --- clause-language prelude (symbolic for the verifier, executable for replay tests) ---
+
+func zzOld[T any](x T) T   { return x }
+func zzImp(a, b bool) bool { return !a || b }
+
+type zzInt interface {
+	~int | ~int8 | ~int16 | ~int32 | ~int64 | ~uint | ~uint8 | ~uint16 | ~uint32 | ~uint64
+}
+
+func zzForall[T zzInt](f func(T) bool) bool {
+	for j := -2; j < 70000; j++ {
+		if T(j) < 0 != (j < 0) {
+			continue
+		}
+		if !f(T(j)) {
+			return false
+		}
+	}
+	return true
+}
+func zzResult[T any](i int) (zero T) { panic("spec only") }
+func zzIter() int                    { panic("spec only") }
+func zzFresh(x any) bool             { return true }
+func zzSameSlice[T any](a, b []T) bool {
+	return len(a) == len(b) && (len(a) == 0 || &a[0] == &b[0])
+}
+
+var _ secs2.Item
+
+// --- abstract view of a Body: its wire bytes and (for constructed bodies) the item it was built from ---
+
+// ZZBodyByte is the j-th byte of the body's wire encoding (abstract; each implementation is proved
+// to append exactly these bytes).
+//
+//@ func ZZBodyByte
+//@ abstract
+
+func ZZBodyByte(b Body, j int) byte { return 0 }
+
+// ZZRawOf / ZZRawBytes: the adopted buffer of a raw-frame body.
+func ZZRawOf(b Body) bool { _, ok := b.(rawFrameBody); return ok }
+func ZZRawBytes(b Body) []byte {
+	r, _ := b.(rawFrameBody)
+	return r.body
+}
+
+// ZZTreeItem: the item a constructed (tree) body wraps, nil for other bodies.
+func ZZTreeItem(b Body) secs2.Item {
+	t, ok := b.(*treeBody)
+	if !ok || t == nil {
+		return nil
+	}
+	return t.item
+}
+
+//@ iface Body.Len
+//@ pure
+//@ stub specBodyLen
+
+//@ func specBodyLen
+//@ ensures [nonneg] result >= 0 && result <= 1<<40
+
+func specBodyLen(b Body) (result int) { return 0 }
+
+//@ iface Body.AppendTo
+//@ stub specBodyAppendTo
+
+//@ func specBodyAppendTo
+//@ modifies dst
+//@ ensures [len]    len(result) == len(old(dst)) + b.Len()
+//@ ensures [prefix] forall j :: 0 <= j && j < len(old(dst)) ==> result[j] == old(dst)[j]
+//@ ensures [bytes]  forall j :: 0 <= j && j < b.Len() ==> result[len(old(dst))+j] == ZZBodyByte(b, j)
+//@ ensures [fresh]  fresh(result) || result == nil || zzSameSlice(result[:0], old(dst)[:0])
+
+func specBodyAppendTo(b Body, dst []byte) (result []byte) { return nil }
+
+//@ func AdoptBody
+//@ ensures [raw] ZZRawOf(result) && zzSameSlice(ZZRawBytes(result), body)
+
+//@ func OwnedBytes
+//@ ensures [ok]    result1 == ZZRawOf(b)
+//@ ensures [bytes] result1 ==> zzSameSlice(result0, ZZRawBytes(b))
+//@ ensures [nil]   !result1 ==> result0 == nil
+
+//@ func FromItem
+//@ ensures [tree] result != nil && ZZTreeItem(result) == it && !ZZRawOf(result)
+//@ ensures [fresh] fresh(result)
+
+//@ func (rawFrameBody).Len
+//@ ensures [len] result == len(r.body)
+
+//@ func (rawFrameBody).AppendTo
+//@ modifies dst
+//@ ensures [len]    len(result) == len(old(dst)) + len(r.body)
+//@ ensures [prefix] forall j :: 0 <= j && j < len(old(dst)) ==> result[j] == old(dst)[j]
+//@ ensures [bytes]  forall j :: 0 <= j && j < len(r.body) ==> result[len(old(dst))+j] == r.body[j]
